@@ -46,7 +46,7 @@ GOENV = {
 # --------------------------------------------------------------------------- check table
 # run: test = -test.run regexp; n = rapid.checks per tier (total over shards); shards per tier;
 #      steps = rapid.steps; variant = build variant; timeout in seconds per shard.
-def R(test, quick, thorough, shards=(8, 16), steps=None, timeout=(600, 3000), extra=None, norapid=False, env=None, fuzz=None, tiers=("quick", "thorough"), variant=None):
+def R(test, quick, thorough, shards=(8, 16), steps=None, timeout=(900, 6000), extra=None, norapid=False, env=None, fuzz=None, tiers=("quick", "thorough"), variant=None):
     """fuzz = seconds of native 'go test -fuzz' (coverage guided, all cores); such an entry only runs in the tiers listed."""
     return dict(test=test, n=dict(quick=quick, thorough=thorough), shards=dict(quick=shards[0], thorough=shards[1]),
                 steps=steps, timeout=dict(quick=timeout[0], thorough=timeout[1]), extra=extra or [], norapid=norapid, env=env or {}, fuzz=fuzz, tiers=tiers,
@@ -160,7 +160,7 @@ check("C17", "fallback-tag referrers converted without loss, repeatably", "explo
       "Trusted: the layout generator's expectation (union of listed descriptors whose manifest exists and names the subject, recomputed from the manifests); process-crash model of the vfs shim "
       "(no loss of un-synced pages); pre-existing converted responses are generated accurate only.",
       "DESIGN.md §3 C17",
-      [R("^TestC17$", 2000, 8000, shards=(8, 16), timeout=(900, 3300))], variant="vfs")
+      [R("^TestC17$", 2000, 8000, shards=(8, 16), timeout=(1200, 6000))], variant="vfs")
 
 check("C14", "read-only stores and disabled APIs change nothing", "exploration",
       "rapid generator of pre-built roots (healthy/legacy/corrupt) x switch combinations x request mixes; oracle = byte/mtime-exact snapshot of the root and its parent + status class per switch + read sweep",
@@ -235,7 +235,7 @@ check("C13", "concurrent use of one server is free of data races", "exploration"
       "Any report of the detector is a violation; its signature is the unordered pair of top olareg frames with access kinds.",
       "Trusted: the Go race detector (reports only races on executed, concurrently scheduled accesses); this is fuzzing of schedules, not a proof of race freedom.",
       "DESIGN.md §3 C13",
-      [R("^TestC13$", 6000, 60000, shards=(8, 16), timeout=(900, 3300))], variant="race")
+      [R("^TestC13$", 6000, 40000, shards=(8, 16), timeout=(1800, 9000))], variant="race")
 
 check("C12", "no schedule can hang the registry", "exploration",
       "rapid generator of concurrent programs on a vsync-instrumented build with injected delays after lock acquisitions; oracle = wait-for-graph cycle / stall monitor, cancellation and Close/Shutdown bounds",
@@ -246,7 +246,7 @@ check("C12", "no schedule can hang the registry", "exploration",
       "Trusted: the check-time rewrite of sync.Mutex/sync.WaitGroup in olareg.go, internal/store, internal/cache to recording wrappers; liveness is approximated by bounded completion (20 s, 100x normal latency) and a "
       "stall is only called when the monitor itself kept ticking; hangs needing a specific interleaving of more than two lock sites may be missed.",
       "DESIGN.md §3 C12",
-      [R("^TestC12$", 3000, 40000, shards=(8, 16), timeout=(900, 3300)), R("^TestC12Shutdown$", 96, 1600, shards=(4, 8), timeout=(900, 3300)), R("^TestC12Holder$", 32, 480, shards=(8, 16), timeout=(900, 3300)), R("^TestC12CloseUnderLoad$", 4000, 100000, shards=(8, 16), timeout=(900, 3300))], variant="vsync")
+      [R("^TestC12$", 3000, 40000, shards=(8, 16), timeout=(1200, 6000)), R("^TestC12Shutdown$", 96, 1600, shards=(4, 8), timeout=(1200, 6000)), R("^TestC12Holder$", 32, 480, shards=(8, 16), timeout=(1200, 6000)), R("^TestC12CloseUnderLoad$", 4000, 100000, shards=(8, 16), timeout=(1200, 6000))], variant="vsync")
 
 check("C19", "every setting has its documented effect", "exploration",
       "rapid over Config values (defaults), over flag vectors of the built binary with a probe battery vs a behaviour table, over request/address/delay sequences in a synctest bubble vs the accounting-window model, and over signal moments",
@@ -257,7 +257,7 @@ check("C19", "every setting has its documented effect", "exploration",
       "Trusted: the behaviour table in c19_test.go (from the flag help text and config.go comments); testing/synctest for layer 3; a request exactly one second after its window opened may be counted either way; "
       "the microsecond window between signal.Notify and Server.Run storing its http.Server cannot be hit from outside the process (not claimed).",
       "DESIGN.md §3 C19",
-      [R("^TestC19Defaults$", 20000, 1000000), R("^TestC19Rate$", 8000, 400000), R("^TestC19CLI$", 24, 640, shards=(6, 16), timeout=(900, 3300)), R("^TestC19GC$", 1200, 24000), R("^TestC19Toggle$", 3000, 60000)], variant="go126")
+      [R("^TestC19Defaults$", 20000, 1000000), R("^TestC19Rate$", 8000, 400000), R("^TestC19CLI$", 24, 640, shards=(6, 16), timeout=(1200, 6000)), R("^TestC19GC$", 1200, 24000), R("^TestC19Toggle$", 3000, 60000)], variant="go126")
 
 NOT_APPLICABLE = {}
 
